@@ -201,15 +201,15 @@ def reference(case, grid):
         if case["y"]["log"]:
             ty = np.log10(ty)
 
-    def axis_opts(t, lo, hi, n):
+    def axis_opts(t, lo, hi, n, tol=EDGE_TOL):
         if not np.isfinite(t):
             return [None]
         bw = (hi - lo) / n
-        if t == lo:
+        if t == lo and tol == EDGE_TOL:
             return [0]
         f = (t - lo) / bw
         r = round(f)
-        if abs(f - r) <= EDGE_TOL * max(1.0, abs(f)):
+        if abs(f - r) <= tol * max(1.0, abs(f)):
             opts = []
             for c in (r - 1, r):
                 opts.append(c if 0 <= c < n else None)
@@ -218,14 +218,55 @@ def reference(case, grid):
         return [c if 0 <= c < n else None]
 
     for i in range(case["n"]):
-        ox = axis_opts(tx[i], grid["xmin"], grid["xmax"], grid["nx"])
-        oy = axis_opts(ty[i], grid["ymin"], grid["ymax"], grid["ny"])
+        ox = axis_opts(tx[i], grid["xmin"], grid["xmax"], grid["nx"], grid.get("xtol", EDGE_TOL))
+        oy = axis_opts(ty[i], grid["ymin"], grid["ymax"], grid["ny"], grid.get("ytol", EDGE_TOL))
         opts = set()
         for a in ox:
             for b in oy:
                 opts.add(None if (a is None or b is None) else (b, a))
         out.append(opts)
     return out, tx, ty
+
+
+def derive_grid(case, plot):
+    """Grid claimed to the user, from the returned bin centres (and explicit limits for single-bin axes)."""
+    g = {}
+    for name, cen, ax in (("x", plot.x, case["x"]), ("y", plot.y, case["y"])):
+        c = np.asarray(cen, dtype=float)
+        n_ = len(c)
+        ulo = None if ax["lo"] is None else (math.log10(ax["lo"]) if ax["log"] else ax["lo"])
+        uhi = None if ax["hi"] is None else (math.log10(ax["hi"]) if ax["log"] else ax["hi"])
+        if n_ >= 2:
+            if ax["log"]:
+                if not np.all(c > 0):
+                    return None
+                w = math.log10(c[1] / c[0])
+                # centres of a logarithmic grid are the arithmetic means of the edges: c_k = 10**e_k * (1 + 10**w) / 2
+                lo = math.log10(c[0] / (0.5 * (1.0 + 10.0 ** w)))
+            else:
+                w = c[1] - c[0]
+                lo = c[0] - 0.5 * w
+            hi = lo + n_ * w
+        else:
+            if ulo is not None and uhi is not None:
+                lo, hi = ulo, uhi
+            else:
+                return None
+        if not (np.isfinite(lo) and np.isfinite(hi)):
+            return None
+        # explicit limits are exact; derived ones carry the rounding of the centres (ill-conditioned for narrow ranges far from 0)
+        wbin = (hi - lo) / n_
+        if ulo is not None and abs(lo - ulo) <= 1e-6 * abs(wbin):
+            lo = ulo
+        if uhi is not None and abs(hi - uhi) <= 1e-6 * abs(wbin):
+            hi = uhi
+        if not hi > lo:
+            return None
+        with np.errstate(all="ignore"):
+            mag = float(np.max(np.abs(np.log10(c) if ax["log"] else c)))
+        g[name + "min"], g[name + "max"], g["n" + name] = float(lo), float(hi), n_
+        g[name + "tol"] = 1e-11 + 16 * np.finfo(float).eps * max(mag, abs(lo), abs(hi)) / ((hi - lo) / n_)
+    return g
 
 
 def execute(case, stats):
@@ -258,7 +299,10 @@ def execute(case, stats):
             V("frontend-exception", phase, {"effect": type(e).__name__}, {"error": f"{type(e).__name__}: {e}"[:300]})
             return res
         if len(calls) != 1:
-            raise HarnessError(f"HARNESS-UNSUPPORTED: front-end made {len(calls)} kernel calls (expected 1)")
+            # the front-end does not go through the hist2d seam (as it is known here): nothing to schedule;
+            # judge the returned Plot at user level only (grid derived from the returned bin centres)
+            stats.inc("probe.kernel_seam_not_used")
+            calls = [{"args": None, "result": None, "sim": Sim(T=1)}]
         runs.append((plot, calls[0]))
         if phase == "t1":
             dry_sim = calls[0]["sim"]
@@ -284,7 +328,15 @@ def execute(case, stats):
         grid = {k: float(a[k]) for k in ("xmin", "xmax", "ymin", "ymax")}
         grid["nx"], grid["ny"] = int(a["nx"]), int(a["ny"])
     except (KeyError, TypeError):
-        raise HarnessError("HARNESS-UNSUPPORTED: hist2d signature changed; cannot observe the claimed grid")
+        # kernel signature unknown (or seam unused): derive the grid from what the user gets back
+        grid = derive_grid(case, p1)
+        c1 = dict(c1, result=None)
+        c2 = dict(c2, result=None) if c2 is not runs[0][1] else c1
+        stats.inc("probe.grid_derived_from_returned_centres")
+        if grid is None:
+            stats.inc("ambig.grid_not_observable")
+            res["signature"] = None
+            return res
     wl = core.digest({k: case[k] for k in ("n", "res", "x", "y", "layers", "call_op", "loglog")})[:16]
     res["signature"] = wl + ":" + sig
 
@@ -400,6 +452,8 @@ def execute(case, stats):
                     abss[k][b] += abs(v[i])
 
     def judge(label, plot, call, t1=None):
+        if call["result"] is None:
+            return judge_user_level(label, plot)
         counts = np.asarray(call["result"][1])
         if counts.shape != (ny, nx):
             V("counts", label, {"effect": "counts-shape"}, {"shape": list(counts.shape)})
@@ -446,8 +500,35 @@ def execute(case, stats):
             if osyris.units(layer["unit"]) != osyris.units(lay_units[k]):
                 V("unit", label, {"effect": "unit"}, {"layer": k, "got": str(layer["unit"]), "want": lay_units[k]})
 
+    def judge_user_level(label, plot):
+        """Without the kernel's counts: the default layer *is* the counts; value layers are judged by mask and value."""
+        if len(plot.layers) != len(lay_vals):
+            V("layers", label, {"effect": "layer-count"}, {"got": len(plot.layers), "want": len(lay_vals)})
+            return
+        for k, layer in enumerate(plot.layers):
+            data = layer["data"]
+            mask = np.ma.getmaskarray(data)
+            vals = np.ma.getdata(data)
+            if mask.shape != (ny, nx):
+                V("counts", label, {"effect": "counts-shape"}, {"shape": list(mask.shape)})
+                return
+            if np.any((upper == 0) & ~mask) or np.any((lower > 0) & mask):
+                V("mask", label, {"effect": "mask", "when": label}, {"layer": k})
+                continue
+            ok_bins = (~amb_bins) & (lower > 0)
+            exp = sums[k].copy()
+            tol = 64 * np.finfo(float).eps * abss[k] + 1e-300
+            if lay_ops[k] == "mean":
+                with np.errstate(all="ignore"):
+                    exp = np.where(lower > 0, exp / np.maximum(lower, 1), 0.0)
+                    tol = tol / np.maximum(lower, 1)
+            bad = ok_bins & ~(np.abs(vals - exp) <= tol)
+            if np.any(bad):
+                b = tuple(np.argwhere(bad)[0])
+                V("values", label, {"effect": lay_ops[k], "when": label}, {"layer": k, "bin": list(b), "got": float(vals[b]), "want": float(exp[b])})
+
     judge("T=1", p1, c1)
-    if not viol and c2 is not c1:
+    if not viol and c2 is not c1 and c2["result"] is not None:
         judge("scheduled", p2, c2)
         # schedule independence proper: T=1 vs scheduled, outside every band
         if not viol:
@@ -578,6 +659,8 @@ def finalize(tier, base_seed, stats, viols):
         if res["violations"] or "sim_T1_args" not in res:
             continue
         args = res["sim_T1_args"]
+        if args is None:
+            continue  # the front-end does not use the kernel seam: nothing to anchor
         # simulated T=1 again, then compiled with one thread
         mod, orig, ks = kernel(MODNAME, KATTR)
         sim_out = ks.run(Sim(T=1), **args)
